@@ -633,14 +633,14 @@ fn build_l2_input(case: &Case, i: usize) -> Option<(Vec<u8>, Option<Plan>)> {
             blocks,
             eof_marker: true,
             level: 6,
-        bcf_minor: 0,
+        bcf_minor: 0, no_contig_lines: false,
         }
     };
     let default_layout = Layout {
         blocks: vec![],
         eof_marker: true,
         level: 6,
-    bcf_minor: 0,
+    bcf_minor: 0, no_contig_lines: false,
     };
     match case.fault {
         Fault::BcfRecordCut => {
@@ -679,7 +679,7 @@ fn build_l2_input(case: &Case, i: usize) -> Option<(Vec<u8>, Option<Plan>)> {
                         blocks,
                         eof_marker: true,
                         level: 6,
-                    bcf_minor: 0,
+                    bcf_minor: 0, no_contig_lines: false,
                     },
                 )
             };
